@@ -37,6 +37,25 @@ def fmt_num(v):
 
 NAN = float("nan")
 
+
+def xpath_number(s):
+    """EXACT oracle for the XPath 1.0 string -> number conversion (the C18 statement): optional white space, optional
+    '-', then `Digits ('.' Digits?)? | '.' Digits`, optional white space, converted as the exact rational rounded to
+    nearest-even (python: float(Fraction)); anything else is NaN (no '+', no exponent, no inner space, no hex,
+    no non-ASCII digits, no 'Infinity')."""
+    import re
+    from fractions import Fraction
+    t = s.strip(" \t\r\n")
+    if not re.fullmatch(r"-?(?:[0-9]+(?:\.[0-9]*)?|\.[0-9]+)", t):
+        return NAN
+    neg = t.startswith("-")
+    t = t.lstrip("-")
+    ip, _, fp = t.partition(".")
+    fr = Fraction(int(ip or "0")) + (Fraction(int(fp), 10 ** len(fp)) if fp else 0)
+    v = float(fr)
+    return -v if neg else v
+
+
 # lexical forms (string -> number per XPath 1.0 `Number` with optional surrounding white space and '-')
 LEX_POOL = [
     ("0", 0.0), ("-0", -0.0), ("1", 1.0), ("2", 2.0), ("3", 3.0), ("-1", -1.0), ("-2", -2.0), ("10", 10.0),
@@ -46,6 +65,17 @@ LEX_POOL = [
     ("135792469", 135792469.0), ("-135792468", -SENTINEL),
     ("", NAN), ("ab", NAN), ("NaN", NAN), ("1e3", NAN), ("--1", NAN), ("1 2", NAN), ("Infinity", NAN),
 ]
+# further spellings whose value is taken from the exact oracle (valid numerals incl. non-dyadic and > 2^53 ones,
+# and strings that must be NaN)
+for _lex in ["1.", "-.5", "-0.0", "00012.500", "0.1", "0.3", "123456789.125", "12345678901234567890", "9007199254740993",
+             "  7\t\n", "0.000001", "1000000000000000000000", "- 1", "+1", "1,5", "0x10", "1e-3", ".", "-", "7 7", "\u0661",
+             "1.5.2", "4.9e-324", "-Infinity"]:
+    LEX_POOL.append((_lex, xpath_number(_lex)))
+# the hand-written values above must agree with the oracle
+for _lex, _v in LEX_POOL:
+    _o = xpath_number(_lex)
+    assert (_o != _o and _v != _v) or bits(_o) == bits(_v), (_lex, _v, _o)
+
 # (a, b) pairs evaluated as `@a div @b`
 DIV_POOL = [
     (("1", "0"), math.inf), (("-1", "0"), -math.inf), (("0", "0"), NAN), (("0", "-1"), -0.0), (("0", "1"), 0.0),
@@ -211,14 +241,17 @@ def gen_case(r, maxn=12, maxkeys=4):
     subset = r.chance(1, 3)
     return {"mode": r.choice(["fe", "at"]), "nest": r.chance(1, 3), "keys": keys, "rows": rows,
             "subset": subset, "noise": [r.chance(1, 3) for _ in range(n + 1)] if subset else [],
-            "selvar": r.chance(1, 5), "inner_sort": r.chance(1, 6)}
+            "selvar": r.chance(1, 5), "inner_sort": r.chance(1, 6),
+            "at_mode": r.chance(1, 3), "with_param": r.weighted([(False, 4), ("first", 1), ("last", 1)]),
+            "inner_same": r.chance(1, 6) and n <= 12}
 
 
 UALPHA = ["a", "b", "A", "B", "z", "Z", "\u00e9", "\u00c9", "e\u0301", "\u00e0", "\u00e4", "\u00df", "ss", "1", "2", "10", " ",
           "-", "\u4e2d", "\u03b1", "\u0431", "\U0001d49c", "ae", "\u00e6", "o", "\u00f6", "\u00d8", "_", ".", "~"]
 
 
-LANGS = ["-", "en", "sv", "de", "da", "en-US"]
+LONGTAG = "en-" + "a" * 160      # >= ULOC_FULLNAME_CAPACITY: ICU collator cannot be created -> code-unit fallback
+LANGS = ["-", "en", "sv", "de", "da", "en-US", "-", "en", "sv", "de", "da", "en-US", "zz-unknown", LONGTAG]
 UALPHA2 = ["a", "A", "b", "B", "o", "O", "\u00f6", "\u00d6", "z", "Z", "\u00e4", "y", "\u00fc", "v", "w", "e", "\u00e9"]
 
 
@@ -296,7 +329,8 @@ def u16hex(w):
 
 
 def esc(s):
-    return s.replace("&", "&amp;").replace("<", "&lt;").replace('"', "&quot;")
+    return (s.replace("&", "&amp;").replace("<", "&lt;").replace('"', "&quot;")
+            .replace("\t", "&#9;").replace("\n", "&#10;").replace("\r", "&#13;"))
 
 
 def key_expr(j, key):
@@ -380,7 +414,8 @@ def build(case):
         if k["form"] in ("pos", "rpos"):
             echo.append("|p")
         elif k["number"]:
-            echo.append('|<xsl:value-of select="number(%s)"/>' % e)
+            # exact observation of the key value: IEEE bits of number(expr)
+            echo.append('|<xsl:value-of select="p:bits(%s)"/>' % e)
         else:
             echo.append('|<xsl:value-of select="string(%s)"/>' % e)
     ab = case.get("abort")
@@ -390,8 +425,16 @@ def build(case):
             sorts.append('<xsl:sort select="@id" order="{p:boom(1)}"/>')
         else:
             sorts.append('<xsl:sort select="%s"/>' % expr)
+    extras = "|X"
+    if case.get("with_param") and case["mode"] == "at":
+        extras += 'W<xsl:value-of select="$w"/>;'
+    if case.get("inner_same") and not case.get("abort"):
+        # a sort of the same nodes with the same keys, started and finished INSIDE every iteration of the outer sorted
+        # instruction (same NodeSorter): it must give the outer order, and must not disturb the outer iteration
+        isorts = "".join(x.replace("p:probe(", "p:noprobe(") for x in sorts)
+        extras += ('I:<xsl:for-each select="../e[@sel=\'1\']">%s<xsl:value-of select="@id"/>,</xsl:for-each>' % isorts)
     body = ('[<xsl:value-of select="@id"/>|<xsl:value-of select="position()"/>|<xsl:value-of select="last()"/>'
-            + "".join(echo) + "]")
+            + extras + "".join(echo) + "]")
     if case.get("inner_sort"):
         # an unrelated sort between two iterations of the outer one (same NodeSorter, same caches); the body must not
         # be empty: ElemForEach::startElement does nothing at all when the instruction has no children besides xsl:sort
@@ -407,8 +450,17 @@ def build(case):
         inner = '<xsl:for-each select="%s">%s%s</xsl:for-each>' % (sel, "".join(sorts), body)
         templ = ""
     else:
-        inner = '<xsl:apply-templates select="%s">%s</xsl:apply-templates>' % (sel, "".join(sorts))
-        templ = '<xsl:template match="e">%s</xsl:template>' % body
+        mode = ' mode="m"' if case.get("at_mode") else ""
+        wp = '<xsl:with-param name="w" select="3 + 4"/>' if case.get("with_param") else ""
+        wp_first = case.get("with_param") == "first"
+        inner = '<xsl:apply-templates select="%s"%s>%s%s%s</xsl:apply-templates>' % (
+            sel, mode, wp if wp_first else "", "".join(sorts), "" if wp_first else wp)
+        templ = '<xsl:template match="e"%s>%s%s</xsl:template>' % (
+            mode, '<xsl:param name="w" select="0"/>' if case.get("with_param") else "", body)
+        if mode:
+            templ += '<xsl:template match="e">[WRONG-MODE]</xsl:template>'
+            if case.get("inner_same"):
+                pass
     inner = pre + inner
     ps = case.get("pre_sort")
     if ps:
@@ -477,14 +529,14 @@ def expected_echo(case, i):
         if k["form"] in ("pos", "rpos"):
             res.append(["p"])
         elif k["number"]:
-            res.append(fmt_num(v[2]))
+            res.append(["NaN"] if v[2] != v[2] else [bits(v[2])])
         else:
             res.append([v[1]])
     return res
 
 
 def parse_output(text):
-    """'[id|pos|last|e0|e1]…' -> list of (id, pos, last, [echo…]) ; None when malformed"""
+    """'[id|pos|last|X<extras>|e0|e1]…' -> list of (id, pos, last, [echo…], extras) ; None when malformed"""
     res = []
     s = text
     while s:
@@ -494,10 +546,10 @@ def parse_output(text):
         if j < 0:
             return None
         f = s[1:j].split("|")
-        if len(f) < 3:
+        if len(f) < 4 or not f[3].startswith("X"):
             return None
         try:
-            res.append((int(f[0]), int(f[1]), int(f[2]), f[3:]))
+            res.append((int(f[0]), int(f[1]), int(f[2]), f[4:], f[3][1:]))
         except ValueError:
             return None
         s = s[j + 1:]
@@ -516,5 +568,8 @@ def describe(case):
             rows += " pre_sort=%r" % (case["pre_sort"],)
     if case.get("abort"):
         ks += " ABORT:" + case["abort"]
-    return "%s%s%s%s%s keys[%s] rows[%s]" % (case["mode"], "+nest" if case["nest"] else "", "+subset" if case.get("subset") else "",
-                                         "+selvar" if case.get("selvar") else "", "+inner" if case.get("inner_sort") else "", ks, rows)
+    flags = "".join(f for f, on in (("+nest", case["nest"]), ("+subset", case.get("subset")), ("+selvar", case.get("selvar")),
+                                    ("+inner", case.get("inner_sort")), ("+mode", case.get("at_mode") and case["mode"] == "at"),
+                                    ("+with-param", case.get("with_param") and case["mode"] == "at"),
+                                    ("+inner-same", case.get("inner_same"))) if on)
+    return "%s%s keys[%s] rows[%s]" % (case["mode"], flags, ks, rows)
